@@ -210,8 +210,11 @@ fn c15_bulk_read_in_transaction_equals_bulk_read_after_commit() {
         (None, dbv) => dbv.map(|s| (s.version, s.pending)),
     };
     assert!(got == want, "bulk read inside the transaction differs from the bulk read after commit");
-    kani::cover!(tx.is_some() && db.is_some() && got == db.map(|s| (s.version, s.pending)));
-    kani::cover!(tx.is_some() && db.is_some() && got == tx.map(|s| (s.version, s.pending)) && tx != db);
+    let both = tx.is_some() && db.is_some();
+    let kept_db = both && got == db.map(|s| (s.version, s.pending));
+    let took_tx = both && got == tx.map(|s| (s.version, s.pending)) && tx != db;
+    kani::cover!(kept_db);
+    kani::cover!(took_tx);
 }
 
 include!("playback_c15.rs");
